@@ -1,7 +1,373 @@
-//! Schema statement scripts (tables, indexes, foreign keys, types).
+//! Schema statement scripts (tables, indexes, foreign keys, Postgres types / extensions).
 #![allow(clippy::all)]
+use crate::script::*;
+use crate::stmt::tableref;
+use sea_query::extension::postgres::{Extension, Type};
+use sea_query::*;
 use serde_json::{json, Value as J};
 
-pub fn handle(op: &str, _req: &J) -> J {
-    json!({"error": format!("unknown op {op}")})
+fn string_len(j: &J) -> StringLen {
+    if let Some(s) = j.as_str() {
+        return if s == "Max" { StringLen::Max } else { StringLen::None };
+    }
+    StringLen::N(j[1].as_u64().unwrap() as u32)
+}
+
+fn opt_u32(j: &J) -> Option<u32> {
+    j.as_u64().map(|x| x as u32)
+}
+
+fn opt_pair(j: &J) -> Option<(u32, u32)> {
+    j.as_array().map(|a| (a[0].as_u64().unwrap() as u32, a[1].as_u64().unwrap() as u32))
+}
+
+pub fn column_type(j: &J) -> ColumnType {
+    if let Some(s) = j.as_str() {
+        return match s {
+            "Text" => ColumnType::Text,
+            "Blob" => ColumnType::Blob,
+            "TinyInteger" => ColumnType::TinyInteger,
+            "SmallInteger" => ColumnType::SmallInteger,
+            "Integer" => ColumnType::Integer,
+            "BigInteger" => ColumnType::BigInteger,
+            "TinyUnsigned" => ColumnType::TinyUnsigned,
+            "SmallUnsigned" => ColumnType::SmallUnsigned,
+            "Unsigned" => ColumnType::Unsigned,
+            "BigUnsigned" => ColumnType::BigUnsigned,
+            "Float" => ColumnType::Float,
+            "Double" => ColumnType::Double,
+            "DateTime" => ColumnType::DateTime,
+            "Timestamp" => ColumnType::Timestamp,
+            "TimestampWithTimeZone" => ColumnType::TimestampWithTimeZone,
+            "Time" => ColumnType::Time,
+            "Date" => ColumnType::Date,
+            "Year" => ColumnType::Year,
+            "Boolean" => ColumnType::Boolean,
+            "Json" => ColumnType::Json,
+            "JsonBinary" => ColumnType::JsonBinary,
+            "Uuid" => ColumnType::Uuid,
+            "Cidr" => ColumnType::Cidr,
+            "Inet" => ColumnType::Inet,
+            "MacAddr" => ColumnType::MacAddr,
+            "LTree" => ColumnType::LTree,
+            x => panic!("column type {x}"),
+        };
+    }
+    let a = j.as_array().unwrap();
+    match a[0].as_str().unwrap() {
+        "Char" => ColumnType::Char(opt_u32(&a[1])),
+        "String" => ColumnType::String(string_len(&a[1])),
+        "Decimal" => ColumnType::Decimal(opt_pair(&a[1])),
+        "Money" => ColumnType::Money(opt_pair(&a[1])),
+        "Interval" => ColumnType::Interval(None, opt_u32(&a[2])),
+        "Binary" => ColumnType::Binary(a[1].as_u64().unwrap() as u32),
+        "VarBinary" => ColumnType::VarBinary(string_len(&a[1])),
+        "Bit" => ColumnType::Bit(opt_u32(&a[1])),
+        "VarBit" => ColumnType::VarBit(a[1].as_u64().unwrap() as u32),
+        "Custom" => ColumnType::Custom(iden(&a[1])),
+        "Enum" => ColumnType::Enum { name: iden(&a[1]), variants: a[2].as_array().unwrap().iter().map(iden).collect() },
+        "Array" => ColumnType::Array(RcOrArc::new(column_type(&a[1]))),
+        x => panic!("column type {x}"),
+    }
+}
+
+pub fn column_def(j: &J) -> ColumnDef {
+    let mut c = if j["type"].is_null() { ColumnDef::new(iden(&j["name"])) } else { ColumnDef::new_with_type(iden(&j["name"]), column_type(&j["type"])) };
+    for s in j["specs"].as_array().unwrap() {
+        if let Some(n) = s.as_str() {
+            match n {
+                "Null" => { c.null(); }
+                "NotNull" => { c.not_null(); }
+                "AutoIncrement" => { c.auto_increment(); }
+                "UniqueKey" => { c.unique_key(); }
+                "PrimaryKey" => { c.primary_key(); }
+                x => panic!("column spec {x}"),
+            }
+        } else {
+            let a = s.as_array().unwrap();
+            match a[0].as_str().unwrap() {
+                "Default" => { c.default(expr(&a[1])); }
+                "Check" => { c.check(expr(&a[1])); }
+                "Generated" => { c.generated(expr(&a[1]), a[2].as_bool().unwrap()); }
+                "Extra" => { c.extra(jstring(&a[1])); }
+                "Comment" => { c.comment(jstring(&a[1])); }
+                "Using" => { c.using(expr(&a[1])); }
+                x => panic!("column spec {x}"),
+            }
+        }
+    }
+    c
+}
+
+fn index_order(j: &J) -> IndexOrder {
+    if j.as_str() == Some("Desc") { IndexOrder::Desc } else { IndexOrder::Asc }
+}
+
+pub fn index_create(j: &J) -> IndexCreateStatement {
+    let mut ix = IndexCreateStatement::new();
+    for c in j["calls"].as_array().unwrap() {
+        let a = c.as_array().unwrap();
+        match a[0].as_str().unwrap() {
+            "name" => { ix.name(jstring(&a[1])); }
+            "table" => { ix.table(tableref(&a[1])); }
+            "col" => {
+                let name = iden(&a[1]);
+                let ord = a.get(2).filter(|x| !x.is_null());
+                let pre = a.get(3).filter(|x| !x.is_null());
+                match (pre, ord) {
+                    (None, None) => { ix.col(name); }
+                    (None, Some(o)) => { ix.col((name, index_order(o))); }
+                    (Some(p), None) => { ix.col((name, p.as_u64().unwrap() as u32)); }
+                    (Some(p), Some(o)) => { ix.col((name, p.as_u64().unwrap() as u32, index_order(o))); }
+                }
+            }
+            "primary" => { ix.primary(); }
+            "unique" => { ix.unique(); }
+            "nulls_not_distinct" => { ix.nulls_not_distinct(); }
+            "full_text" => { ix.full_text(); }
+            "index_type" => {
+                ix.index_type(match a[1].as_str().unwrap() {
+                    "BTree" => IndexType::BTree,
+                    "FullText" => IndexType::FullText,
+                    "Hash" => IndexType::Hash,
+                    x => IndexType::Custom(SeaRc::new(Alias::new(x))),
+                });
+            }
+            "include" => { ix.include(iden(&a[1])); }
+            "if_not_exists" => { ix.if_not_exists(); }
+            "and_where" => { ix.and_where(expr(&a[1])); }
+            k => panic!("index call {k}"),
+        }
+    }
+    ix
+}
+
+fn fk_action(j: &J) -> ForeignKeyAction {
+    match j.as_str().unwrap() {
+        "Restrict" => ForeignKeyAction::Restrict,
+        "Cascade" => ForeignKeyAction::Cascade,
+        "SetNull" => ForeignKeyAction::SetNull,
+        "NoAction" => ForeignKeyAction::NoAction,
+        "SetDefault" => ForeignKeyAction::SetDefault,
+        x => panic!("fk action {x}"),
+    }
+}
+
+pub fn fk_create(j: &J) -> ForeignKeyCreateStatement {
+    let mut fk = ForeignKeyCreateStatement::new();
+    for c in j["calls"].as_array().unwrap() {
+        let a = c.as_array().unwrap();
+        match a[0].as_str().unwrap() {
+            "name" => { fk.name(jstring(&a[1])); }
+            "from_tbl" => { fk.from_tbl(tableref(&a[1])); }
+            "to_tbl" => { fk.to_tbl(tableref(&a[1])); }
+            "from_col" => { fk.from_col(iden(&a[1])); }
+            "to_col" => { fk.to_col(iden(&a[1])); }
+            "on_delete" => { fk.on_delete(fk_action(&a[1])); }
+            "on_update" => { fk.on_update(fk_action(&a[1])); }
+            k => panic!("fk call {k}"),
+        }
+    }
+    fk
+}
+
+fn table_fk(j: &J) -> TableForeignKey {
+    fk_create(j).get_foreign_key().clone()
+}
+
+pub fn table_create(j: &J) -> TableCreateStatement {
+    let mut t = TableCreateStatement::new();
+    for c in j["calls"].as_array().unwrap() {
+        let a = c.as_array().unwrap();
+        match a[0].as_str().unwrap() {
+            "table" => { t.table(tableref(&a[1])); }
+            "if_not_exists" => { t.if_not_exists(); }
+            "temporary" => { t.temporary(); }
+            "col" => { t.col(column_def(&a[1])); }
+            "index" => { t.index(&mut index_create(&a[1])); }
+            "primary_key" => { t.primary_key(&mut index_create(&a[1])); }
+            "foreign_key" => { t.foreign_key(&mut fk_create(&a[1])); }
+            "check" => { t.check(expr(&a[1])); }
+            "comment" => { t.comment(jstring(&a[1])); }
+            "engine" => { t.engine(jstring(&a[1])); }
+            "collate" => { t.collate(jstring(&a[1])); }
+            "character_set" => { t.character_set(jstring(&a[1])); }
+            "extra" => { t.extra(jstring(&a[1])); }
+            k => panic!("table create call {k}"),
+        }
+    }
+    t
+}
+
+pub fn table_alter(j: &J) -> TableAlterStatement {
+    let mut t = TableAlterStatement::new();
+    for c in j["calls"].as_array().unwrap() {
+        let a = c.as_array().unwrap();
+        match a[0].as_str().unwrap() {
+            "table" => { t.table(tableref(&a[1])); }
+            "add_column" => { t.add_column(column_def(&a[1])); }
+            "add_column_if_not_exists" => { t.add_column_if_not_exists(column_def(&a[1])); }
+            "modify_column" => { t.modify_column(column_def(&a[1])); }
+            "rename_column" => { t.rename_column(iden(&a[1]), iden(&a[2])); }
+            "drop_column" => { t.drop_column(iden(&a[1])); }
+            "add_foreign_key" => { t.add_foreign_key(&table_fk(&a[1])); }
+            "drop_foreign_key" => { t.drop_foreign_key(iden(&a[1])); }
+            k => panic!("table alter call {k}"),
+        }
+    }
+    t
+}
+
+macro_rules! schema_render {
+    ($s:expr, $req:expr) => {{
+        let s = $s;
+        let sql = match backend_of($req) {
+            "mysql" => s.to_string(MysqlQueryBuilder),
+            "postgres" => s.to_string(PostgresQueryBuilder),
+            "sqlite" => s.to_string(SqliteQueryBuilder),
+            b => panic!("backend {b}"),
+        };
+        json!({"sql": cps(&sql)})
+    }};
+}
+
+pub fn render_ddl(st: &J, req: &J) -> J {
+    let calls = || st["calls"].as_array().unwrap().clone();
+    match st["k"].as_str().unwrap() {
+        "table_create" => schema_render!(table_create(st), req),
+        "table_alter" => schema_render!(table_alter(st), req),
+        "table_drop" => {
+            let mut t = TableDropStatement::new();
+            for c in calls() {
+                match c[0].as_str().unwrap() {
+                    "table" => { t.table(tableref(&c[1])); }
+                    "if_exists" => { t.if_exists(); }
+                    "restrict" => { t.restrict(); }
+                    "cascade" => { t.cascade(); }
+                    k => panic!("table drop call {k}"),
+                }
+            }
+            schema_render!(t, req)
+        }
+        "table_rename" => {
+            let mut t = TableRenameStatement::new();
+            for c in calls() {
+                t.table(tableref(&c[1]), tableref(&c[2]));
+            }
+            schema_render!(t, req)
+        }
+        "table_truncate" => {
+            let mut t = TableTruncateStatement::new();
+            for c in calls() {
+                t.table(tableref(&c[1]));
+            }
+            schema_render!(t, req)
+        }
+        "index_create" => schema_render!(index_create(st), req),
+        "index_drop" => {
+            let mut t = IndexDropStatement::new();
+            for c in calls() {
+                match c[0].as_str().unwrap() {
+                    "name" => { t.name(jstring(&c[1])); }
+                    "table" => { t.table(tableref(&c[1])); }
+                    "if_exists" => { t.if_exists(); }
+                    k => panic!("index drop call {k}"),
+                }
+            }
+            schema_render!(t, req)
+        }
+        "fk_create" => schema_render!(fk_create(st), req),
+        "fk_drop" => {
+            let mut t = ForeignKeyDropStatement::new();
+            for c in calls() {
+                match c[0].as_str().unwrap() {
+                    "name" => { t.name(jstring(&c[1])); }
+                    "table" => { t.table(tableref(&c[1])); }
+                    k => panic!("fk drop call {k}"),
+                }
+            }
+            schema_render!(t, req)
+        }
+        "type_create" => {
+            let mut t = Type::create();
+            for c in calls() {
+                match c[0].as_str().unwrap() {
+                    "as_enum" => { t.as_enum(iden(&c[1])); }
+                    "values" => { t.values(c[1].as_array().unwrap().iter().map(iden).collect::<Vec<_>>()); }
+                    k => panic!("type create call {k}"),
+                }
+            }
+            json!({"sql": cps(&t.to_string(PostgresQueryBuilder))})
+        }
+        "type_alter" => {
+            let mut t = Type::alter();
+            for c in calls() {
+                t = match c[0].as_str().unwrap() {
+                    "name" => t.name(iden(&c[1])),
+                    "add_value" => t.add_value(iden(&c[1])),
+                    "before" => t.before(iden(&c[1])),
+                    "after" => t.after(iden(&c[1])),
+                    "if_not_exists" => t.if_not_exists(),
+                    "rename_to" => t.rename_to(iden(&c[1])),
+                    "rename_value" => t.rename_value(iden(&c[1]), iden(&c[2])),
+                    k => panic!("type alter call {k}"),
+                };
+            }
+            json!({"sql": cps(&t.to_string(PostgresQueryBuilder))})
+        }
+        "type_drop" => {
+            let mut t = Type::drop();
+            for c in calls() {
+                match c[0].as_str().unwrap() {
+                    "name" => { t.name(iden(&c[1])); }
+                    "if_exists" => { t.if_exists(); }
+                    "cascade" => { t.cascade(); }
+                    "restrict" => { t.restrict(); }
+                    k => panic!("type drop call {k}"),
+                }
+            }
+            json!({"sql": cps(&t.to_string(PostgresQueryBuilder))})
+        }
+        "extension_create" => {
+            let mut t = Extension::create();
+            for c in calls() {
+                match c[0].as_str().unwrap() {
+                    "name" => { t.name(jstring(&c[1])); }
+                    "schema" => { t.schema(jstring(&c[1])); }
+                    "version" => { t.version(jstring(&c[1])); }
+                    "cascade" => { t.cascade(); }
+                    "if_not_exists" => { t.if_not_exists(); }
+                    k => panic!("extension create call {k}"),
+                }
+            }
+            json!({"sql": cps(&t.to_string(PostgresQueryBuilder))})
+        }
+        "extension_drop" => {
+            let mut t = Extension::drop();
+            for c in calls() {
+                match c[0].as_str().unwrap() {
+                    "name" => { t.name(jstring(&c[1])); }
+                    "cascade" => { t.cascade(); }
+                    "restrict" => { t.restrict(); }
+                    "if_exists" => { t.if_exists(); }
+                    k => panic!("extension drop call {k}"),
+                }
+            }
+            json!({"sql": cps(&t.to_string(PostgresQueryBuilder))})
+        }
+        k => panic!("schema statement kind {k}"),
+    }
+}
+
+pub fn handle(op: &str, req: &J) -> J {
+    match op {
+        "render_ddl" => render_ddl(&req["stmt"], req),
+        "column_type" => {
+            // the type name a backend writes for an abstract column type
+            let def = json!({"name": "c", "type": req["type"], "specs": req["specs"]});
+            let st = json!({"k": "table_create", "calls": [["table", ["t", "t"]], ["col", def]]});
+            render_ddl(&st, req)
+        }
+        _ => json!({"error": format!("unknown op {op}")}),
+    }
 }
